@@ -301,10 +301,15 @@ Inductive op :=
                        nobody receives: there is no loop, or it is busy in a long task *)
 | OStart            (* Start(), then the loop runs until the queue is empty / the loop has ended *)
 | ORun              (* the busy loop is released: runs until the queue is empty / it has ended *)
-| OStopSvc (who : Z). (* wait as OWait 0, then Stop() called by: 0 a foreign goroutine, 1 a task
+| OStopSvc (who : Z)  (* wait as OWait 0, then Stop() called by: 0 a foreign goroutine, 1 a task
                         of the loop itself (the same transition: Stop() touches flags only).
                         Stop() of a service that is not up (never started, stopped already) is
                         not driven: only the wait happens *)
+| OCreateNs (ns : Z) (rep : bool) (a : Z) (p : prog).
+                     (* as OCreate, the duration given in nanoseconds (any int64: negative, 1 ns,
+                        one ns short of a ms, 100 years, math.MaxInt64).  The model's clock has no
+                        unit: d is the number the caller passed.  A timer asked for [far] or more
+                        of anything (ns: 1000 s, ms: 31 years) does not expire within a case. *)
 
 Inductive cbrec := CbRec (k n : Z) (args_ok early after_cancel on_owner : bool).
 
@@ -315,10 +320,18 @@ Inductive obs :=
 | BWait (q : list Z) (l : list cbrec). (* timers whose expiry reached the channel; callbacks that ran
                                           although nobody was released to run them (none, in the model) *)
 
+(* durations from here on are "never" on the time scale of a case: Settle / Wait do not wait
+   for such a timer and the runtime does not expire it while the case lasts (it stays armed) *)
+Definition far : Z := 1000000000000.
+
+(* the armed timers that expire within a case *)
 Fixpoint pending (m : alist timer) : list (Z * Z) :=
   match m with
   | [] => []
-  | (k, t) :: r => match t_tok t with Pending dl => (k, dl) :: pending r | _ => pending r end
+  | (k, t) :: r => match t_tok t with
+                   | Pending dl => if t_dur t <? far then (k, dl) :: pending r else pending r
+                   | _ => pending r
+                   end
   end.
 
 Fixpoint zinsert (x : Z) (l : list Z) : list Z :=
@@ -356,7 +369,8 @@ Definition wait_steps (s : st) (g : Z) : list step_t :=
 Definition deliver (s : st) (k : Z) : list step_t :=
   match aget k (objs s) with
   | Some t => match t_tok t with
-              | Pending dl => [SAdvance (dl - clock s); SFireCheck k; SFireSend k]
+              | Pending dl => if t_dur t <? far then [SAdvance (dl - clock s); SFireCheck k; SFireSend k]
+                              else []
               | _ => []
               end
   | None => []
@@ -402,6 +416,7 @@ Definition compile (s : st) (o : op) (l : list Z) : list step_t :=
   | OStart => SStart :: loop_steps (fst (step s SStart)) l
   | ORun => loop_steps s l
   | OStopSvc _ => wait_steps s 0 ++ match life_of s with LUp => [SStop; SClose] | _ => [] end
+  | OCreateNs ns rep a p => [SCreate ns rep a p]
   end.
 
 Fixpoint count_cb (k : Z) (tr : list ev) : Z :=
@@ -428,7 +443,7 @@ Fixpoint queued_of (e : list ev) : list Z :=
 
 Definition obs_of (o : op) (tr e : list ev) : obs :=
   match o with
-  | OCreate _ _ _ _ | OCreateN _ _ _ _ | OStall _ | OCancel _ | OSvc => BUnit
+  | OCreate _ _ _ _ | OCreateN _ _ _ _ | OStall _ | OCancel _ | OSvc | OCreateNs _ _ _ _ => BUnit
   | OStop | OSettle _ => BQueued (queued_of e)
   | ODo _ | ODoAll | OStart | ORun => BRan (cbrecs tr e)
   | OWait _ | OStopSvc _ => BWait (queued_of e) (cbrecs tr e)
